@@ -11,7 +11,8 @@
      draw_pos     : each entry is > 0 (true of numpy's generator except with probability
                     2^-53 per draw; only zero_volume_never uses it) *)
 From Coq Require Import Reals ZArith List Permutation.
-From PV Require Import Num NumR Model_stats Proofs_stats Proofs_stats_batch.
+From PV Require Import Num NumR Model_stats Proofs_stats Proofs_stats_batch Inst_stats Inst_stats_all.
+From PV.gen Require Import Gen_stats.
 Import ListNotations.
 Open Scope R_scope.
 
@@ -228,3 +229,103 @@ Example C15_u0_nonvacuous :
   gather [1/2; 0; 1/2] [1; 0; 2]%nat = Ok [0; 1/2; 1/2] /\
   Forall (fun y => nth 0 [0; 1/2; 1/2] 0 <= y) [0; 1/2; 1/2] /\ In 0 [1/2; 0; 1/2].
 Proof. exact u0_hypotheses_satisfiable. Qed.
+
+(* ================================================================================================ *)
+(* TIE T: statements about the code REGENERATED from pydrex/stats.py on every run (gen/Gen_stats.v). *)
+(* `generated N M ns n g` enumerates the 15 definitions traced from the public function             *)
+(* resample_orientations (N x M = 1x1, 1x2, 1x3, 2x2; n_samples = 1..3 or omitted; np.argsort and    *)
+(* Generator.random are oracles: one permutation code per snapshot, an N x n array of variates);     *)
+(* `validated ro rf k` the 24 traces of its shape test on symbolic dimensions.  Arrays are flat      *)
+(* (`A l` = `mk_arr 0 l`), `grains` / `rows` are their nested views.                                 *)
+(* ================================================================================================ *)
+
+(* every generated definition IS the hand-written model (all inputs, all sort permutations) *)
+Theorem C15_generated_is_model :
+  forall N M ns n g, generated N M ns n g ->
+  forall pis o f u, flat_ok N M n pis o f u -> g pis o f u = pack (model N M ns n pis o f u).
+Proof. exact generated_is_model. Qed.
+
+(* the generated shape test is Model_stats.shape_bad, for all dimensions and all ranks 0..5 / 0..3 *)
+Theorem C15_generated_validation_is_model :
+  forall ro rf k, validated ro rf k ->
+  forall so sf, length so = ro -> length sf = rf -> k so sf = validate_model so sf.
+Proof. exact validated_is_model. Qed.
+
+(* ... hence it lets exactly (N, M, 3, 3) / (N, M) through and raises ValueError otherwise, before
+   the generator is created (`Ok 0` = np.random.default_rng was reached) *)
+Theorem C15_generated_validation_spec :
+  forall ro rf k, validated ro rf k ->
+  forall so sf, length so = ro -> length sf = rf ->
+  (k so sf = Ok 0 <-> exists N M, so = [N; M; 3; 3]%nat /\ sf = [N; M]) /\
+  (k so sf = Ok 0 \/ k so sf = Err ValueError).
+Proof. exact validated_spec. Qed.
+
+Theorem C15_generated_negative_samples :
+  forall o f : list R, length o = 18%nat -> length f = 2%nat ->
+  @k_resample_N1_M2_neg NumR (A o) (A f) = Err ValueError.
+Proof. exact generated_negative_samples. Qed.
+
+(* pairing, on generated code: every returned (orientation, volume) is a grain of the same snapshot *)
+Theorem C15_generated_membership :
+  forall N M ns n g, generated N M ns n g ->
+  forall pis o f u ao af, flat_ok N M n pis o f u -> g pis o f u = Ok (ao, af) ->
+  exists oo ff, ao = A (concat (concat oo)) /\ af = A (concat ff) /\
+  forall i s orow frow ori x,
+    nth_error oo i = Some orow -> nth_error ff i = Some frow ->
+    nth_error orow s = Some ori -> nth_error frow s = Some x ->
+    exists osnap fsnap j, nth_error (grains N M o) i = Some osnap /\ nth_error (rows N M f) i = Some fsnap /\
+      nth_error osnap j = Some ori /\ nth_error fsnap j = Some x.
+Proof. exact generated_membership. Qed.
+
+(* zero-volume grains are never drawn, on generated code (variates in (0,1)) *)
+Theorem C15_generated_zero_volume_never :
+  forall N M ns n g, generated N M ns n g ->
+  forall pis o f u ao af, flat_ok N M n pis o f u -> g pis o f u = Ok (ao, af) ->
+  Forall (fun x => 0 < x < 1) u ->
+  Forall (fun r => Forall (fun x => 0 <= x) r /\ lsum r = 1) (rows N M f) ->
+  forall k, (k < N * n)%nat -> 0 < af k.
+Proof. exact generated_zero_volume_never. Qed.
+
+(* ... and with variates in [0,1): a volume <= 0 is returned only for a variate that is exactly 0 *)
+Theorem C15_generated_zero_volume_only_at_u0 :
+  forall N M ns n g, generated N M ns n g ->
+  forall pis o f u ao af, flat_ok N M n pis o f u -> g pis o f u = Ok (ao, af) ->
+  Forall (fun x => 0 <= x < 1) u ->
+  Forall (fun r => Forall (fun x => 0 <= x) r /\ lsum r = 1) (rows N M f) ->
+  exists oo ff, ao = A (concat (concat oo)) /\ af = A (concat ff) /\
+  forall i s frow x, nth_error ff i = Some frow -> nth_error frow s = Some x -> x <= 0 ->
+    exists urow, nth_error (rows N n u) i = Some urow /\ nth_error urow s = Some 0.
+Proof. exact generated_zero_volume_only_at_u0. Qed.
+
+(* probability = volume, on generated code: with fa / oa the volumes / orientations of snapshot i in
+   sort order, a variate 0 < u_s in the cumulative interval (psum fa k, psum fa (k+1)] -- of length
+   fa_k -- returns exactly grain k (its volume and its orientation) *)
+Theorem C15_generated_draw_interval :
+  forall N M ns n g, generated N M ns n g ->
+  forall pis o f u ao af, flat_ok N M n pis o f u -> g pis o f u = Ok (ao, af) ->
+  Forall (fun r => Forall (fun x => 0 <= x) r /\ lsum r = 1) (rows N M f) ->
+  exists oo ff, ao = A (concat (concat oo)) /\ af = A (concat ff) /\
+  forall i orow frow, nth_error oo i = Some orow -> nth_error ff i = Some frow ->
+  exists osnap fsnap pi urow fa oa,
+    nth_error (grains N M o) i = Some osnap /\ nth_error (rows N M f) i = Some fsnap /\
+    nth_error pis i = Some pi /\ nth_error (rows N n u) i = Some urow /\
+    gather fsnap pi = Ok fa /\ gather osnap pi = Ok oa /\ Permutation fa fsnap /\
+    forall s us k, nth_error urow s = Some us -> 0 < us -> (k < length fa)%nat ->
+      psum fa k < us <= psum fa (S k) ->
+      nth_error frow s = Some (nth k fa 0) /\ nth_error orow s = nth_error oa k /\
+      psum fa (S k) - psum fa k = nth k fa 0.
+Proof. exact generated_draw_interval. Qed.
+
+(* non-vacuity: a member of the family, arguments satisfying every hypothesis used above, and the
+   value the generated code returns on them (grains (1..9, 3/4), (11..19, 1/4); sort order [1; 0];
+   variates 1/2, 1/8) *)
+Example C15_generated_nonvacuous :
+  let pis := [[1; 0]%nat] in let f := [3/4; 1/4] in let u := [1/2; 1/8] in
+  generated 1 2 (Some 2%Z) 2
+    (fun pis o f u => @k_resample_N1_M2_n2 NumR (A o) (A f) (A u) (perm_code (nth 0 pis []))) /\
+  flat_ok 1 2 2 pis ex_o f u /\
+  Forall (fun x => 0 < x < 1) u /\
+  Forall (fun r => Forall (fun x => 0 <= x) r /\ lsum r = 1) (rows 1 2 f) /\
+  @k_resample_N1_M2_n2 NumR (A ex_o) (A f) (A u) (perm_code (nth 0 pis []))
+    = Ok (A (map IZR [1;2;3;4;5;6;7;8;9; 11;12;13;14;15;16;17;18;19]%Z), A [3/4; 1/4]).
+Proof. exact generated_nonvacuous. Qed.
